@@ -145,7 +145,7 @@ func Run(id string, start time.Time) int {
 	for _, s := range seeds {
 		rn.corpus[h.Hash(string(s.Data))] = true
 	}
-	nIn := len(seeds) + h.Pick(7000, 80000)
+	nIn := len(seeds) + h.Pick(6500, 80000)
 	nCLI := NCLI(len(seeds))
 
 	if d, err := strconv.Atoi(os.Getenv("P16_DEBUG_N")); err == nil { // debugging aid only
